@@ -189,6 +189,8 @@ func (c *CheckCtx) solveAll() float64 {
 	return total
 }
 
+const maxReported = 25
+
 type failure struct {
 	ob    *Obligation
 	fn    *FuncReport
@@ -229,6 +231,7 @@ func runCheck(prop, tier string) int {
 	var fails []failure
 	nObl, nDis := 0, 0
 	byBackend := map[string]int{}
+	byClass := map[string]int{}
 	var funcs []string
 	var outOfSubset []string
 	var samples []interface{}
@@ -263,6 +266,7 @@ func runCheck(prop, tier string) int {
 				continue
 			}
 			nObl++
+			byClass[strings.SplitN(o.Class, ":", 2)[0]]++
 			if o.Status == "unsat" {
 				nDis++
 				byBackend[o.Solver]++
@@ -276,6 +280,7 @@ func runCheck(prop, tier string) int {
 	}
 	for _, o := range c.Extra {
 		nObl++
+		byClass[o.Class]++
 		if o.Status == "unsat" {
 			nDis++
 			byBackend[o.Solver]++
@@ -309,12 +314,18 @@ func runCheck(prop, tier string) int {
 		}
 		violations++
 		exit = 1
+		if violations > maxReported {
+			continue
+		}
 		path := writeReplay(c, f)
 		suffix := ""
 		if !replayHasInput(path) {
 			suffix = " no-failing-input-found"
 		}
 		fmt.Printf("VIOLATION property=%s replay=%s obligation=%s%s\n", prop, path, f.ob.Name, suffix)
+	}
+	if violations > maxReported {
+		fmt.Printf("... and %d more failed obligations of property %s (not listed individually; evidence has the count)\n", violations-maxReported, prop)
 	}
 	for _, b := range c.Bounded {
 		if b.Failed > 0 {
@@ -356,6 +367,7 @@ func runCheck(prop, tier string) int {
 		"samples":                  samples,
 		"functions_under_contract": funcs,
 		"by_backend":               byBackend,
+		"by_class":                 byClass,
 		"solver_time_s":            solverTime,
 		"out_of_subset":            outOfSubset,
 		"known_findings_seen":      knownSeen,
